@@ -664,15 +664,34 @@ class Simulation:
             else:
                 if first is None and name in ("scandir", "listdir"):
                     first = "."
+                # openat-style calls: a relative name is resolved against a directory DESCRIPTOR the actor opened earlier
+                def _at(p_, dfd):
+                    if dfd is None:
+                        return self.abspath(p_)
+                    p_ = os.fspath(p_)
+                    if isinstance(p_, bytes):
+                        p_ = os.fsdecode(p_)
+                    if p_.startswith("/"):
+                        return p_
+                    info_ = a.fds.get(dfd)
+                    if info_ is None:
+                        raise LookupError("dir_fd not opened through the seam")
+                    return info_["path"].rstrip("/") + "/" + p_
+
                 try:
-                    path = self.abspath(first)
+                    path = _at(first, kw.get("dir_fd") if name not in ("replace", "rename", "link") else kw.get("src_dir_fd"))
                 except TypeError:
                     return _call_real(fn, *args, **kw)
-                if kw.get("dir_fd") is not None or kw.get("src_dir_fd") is not None:
+                except LookupError:
                     return _call_real(fn, *args, **kw)
                 if name in ("replace", "rename", "link", "symlink"):
                     second = args[1] if len(args) > 1 else kw.get("dst")
-                    path2 = self.abspath(second)
+                    try:
+                        path2 = _at(second, kw.get("dst_dir_fd") if name != "symlink" else kw.get("dir_fd"))
+                    except LookupError:
+                        return _call_real(fn, *args, **kw)
+                    if name == "symlink" and kw.get("dir_fd") is not None:
+                        path = os.fspath(first)
                     if name == "symlink":
                         # symlink(src, dst): dst is the path created; src is just text
                         path, path2 = path2, os.fspath(first)
